@@ -69,7 +69,8 @@ Wraps(x) == <<PrefixedN(ByteN, x), FixedN(CInt(2), x), FixedN(CInt(3), x), Padde
        \o (IF Thorough THEN <<PrefixedN([k |-> "VarInt"], x), [k |-> "Prefixed", lenf |-> ByteN, sub |-> x, incl |-> TRUE],
                               NullTermN(x, TRUE, TRUE, TRUE), NullTermN(x, FALSE, FALSE, TRUE), NullTermN(x, FALSE, TRUE, FALSE),
                               PrefixedArrayN(ByteN, x), DefaultN(x, 7), NullStrippedN(x), FixedN(CInt(0), x),
-                              UnionN(CInt(0), <<MA(x), MB(ByteN)>>), RepeatUntilN(EqE(ObjE, CInt(0)), x)>> ELSE <<>>)
+                              UnionN(CInt(0), <<MA(x), MB(ByteN)>>), UnionN([x |-> "const", v |-> VNone], <<ConstN(<<1>>), MA(x), PaddingN(1)>>),
+                              RepeatUntilN(EqE(ObjE, CInt(0)), x)>> ELSE <<>>)
 
 Concat(ss) == FoldLeft(LAMBDA acc, s : acc \o s, <<>>, ss)
 MapS(f(_), s) == [i \in 1..Len(s) |-> f(s[i])]
@@ -101,6 +102,8 @@ S4 == << StructN(<<MA(ByteN), MB(BytesN(ThisA))>>),
          RepeatUntilN(EqE(ObjE, CInt(0)), ByteN),
          FocusedN(<<98>>, <<MA(ConstN(<<1>>)), MB(Al("Int16ub"))>>),
          BitStructN(<<MA(BitsIntN(3)), MB([k |-> "Flag"]), MC(BitsIntN(4))>>),
+         UnionN([x |-> "const", v |-> VNone], <<BytesN(CInt(2)), MA(ByteN), PaddingN(1), MB(Al("Int16ub"))>>),
+         UnionN(CInt(2), <<ConstN(<<1>>), MA(Al("Int16ub")), MB(ByteN)>>),
          PrefixedN(ByteN, StructN(<<MA([k |-> "Tell"]), MB(GreedyBytesN), MC([k |-> "Tell"])>>)),
          StructN(<<MA(ByteN), MB(PrefixedN(ByteN, RawCopyN(GreedyBytesN))), MC([k |-> "Tell"])>>),
          StructN(<<MA(ByteN), MB(PaddedN(CInt(2), StopIfN(CBool(TRUE))))>>) >>
